@@ -58,7 +58,10 @@ type Desc struct {
 	TimeoutMs int    `json:"timeout_socket_ms"`
 	ReadSize  int    `json:"read_size"`
 	Tail      string `json:"tail,omitempty"`   // hex: plain bytes the server sends after Open has returned
-	Family    string `json:"family,omitempty"` // "" dense (gaps <= 2 ms) | "paced" (bursts separated by pauses below the per-read window)
+	Family    string `json:"family,omitempty"` // "" dense (gaps <= 2 ms) | "paced" (bursts separated by pauses below the per-read window) | "reactive"
+	// reactive: indices of the segments that end a round; the server sends the next round only when it
+	// has received every answer byte the rounds so far call for (bounded wait: timeout/4 after the kernel's acknowledgement)
+	RoundEnds []int `json:"round_ends,omitempty"`
 }
 
 func wireOf(items []Item) []byte {
@@ -392,6 +395,54 @@ func GenPaced(r *rand.Rand) Desc {
 	return d
 }
 
+// GenReactive draws a reactive opening: 2-4 rounds, each with 1-4 requests, with or without trailing
+// banner text; the server waits for the answers to a round before it sends the next one.
+func GenReactive(r *rand.Rand) Desc {
+	d := Desc{Family: "reactive", SegMode: "reactive"}
+	d.TimeoutMs = []int{800, 1200}[r.Intn(2)]
+	nr := 2 + r.Intn(3)
+	for k := 0; k < nr; k++ {
+		var items []Item
+		nn := 1 + r.Intn(4)
+		for i := 0; i < nn; i++ {
+			items = append(items, Item{K: "neg", V: verbs[r.Intn(4)], O: genOpt(r)})
+			if r.Intn(5) == 0 { // something between the requests of a round
+				items = append(items, genItem(r, [4]int{0, 2, 1, 2}))
+			}
+		}
+		if k > 0 && r.Intn(4) == 0 { // a round may start with text (the reaction to the answers is a banner + requests)
+			items = append([]Item{{K: "text", X: hex.EncodeToString(genText(r))}}, items...)
+		}
+		switch r.Intn(4) {
+		case 0: // trailing banner text
+			items = append(items, Item{K: "text", X: hex.EncodeToString(genText(r))})
+		case 1: // trailing two-byte command / escaped IAC
+			items = append(items, genItem(r, [4]int{0, 1, 1, 0}))
+		default: // the round ends with the option code of its last request
+			if last := items[len(items)-1]; last.K != "neg" {
+				items = append(items, Item{K: "neg", V: verbs[r.Intn(4)], O: genOpt(r)})
+			}
+		}
+		L := len(wireOf(items))
+		rest := L
+		for c := r.Intn(3); c > 0 && rest > 1; c-- {
+			x := 1 + r.Intn(rest-1)
+			d.Segs = append(d.Segs, x)
+			d.GapsUs = append(d.GapsUs, r.Intn(400))
+			rest -= x
+		}
+		d.Segs = append(d.Segs, rest)
+		d.GapsUs = append(d.GapsUs, r.Intn(400))
+		d.RoundEnds = append(d.RoundEnds, len(d.Segs)-1)
+		d.Items = append(d.Items, items...)
+	}
+	d.ReadSize = []int{1, 7, 8192, 65535}[r.Intn(4)]
+	if r.Intn(2) == 0 {
+		d.Tail = hex.EncodeToString(genText(r))
+	}
+	return d
+}
+
 // ---------------------------------------------------------------------------------------------
 // loopback server
 
@@ -411,6 +462,16 @@ type server struct {
 	// byte) and a signal that the harness has moved on without necessarily closing the client side
 	end     string
 	release chan struct{}
+	// reactive family: after segment i the server waits (at most bound, counted from the kernel's
+	// acknowledgement of the round) until it has received roundNeed[i] answer bytes in total
+	roundNeed     map[int]int
+	bound         time.Duration
+	recvN         atomic.Int64
+	roundsDone    int
+	gaveUp        bool
+	sent          int // bytes of the opening actually written
+	recvAtGiveUp  int
+	maxAnswerWait time.Duration
 
 	// results, valid after done is closed
 	err          error
@@ -501,6 +562,7 @@ func (s *server) run() {
 		for {
 			n, err := c.Read(buf)
 			s.recv = append(s.recv, buf[:n]...)
+			s.recvN.Add(int64(n))
 			if err != nil {
 				s.recvErr = err
 				return
@@ -538,6 +600,7 @@ func (s *server) run() {
 		burst++
 		return true
 	}
+	ackedAll := false
 	for i, n := range s.segs {
 		if g := s.gaps[i]; g >= pauseMinUs && i > 0 {
 			endBurst(prev.Add(time.Duration(g) * time.Microsecond))
@@ -561,9 +624,46 @@ func (s *server) run() {
 		}
 		prev = now
 		off += n
+		s.sent = off
+		ackedAll = false
+		if need, ok := s.roundNeed[i]; ok {
+			// reactive server: the next round goes out only when every answer byte this round calls
+			// for has been received; the wait is bounded from the moment the client's kernel had the round
+			if !endBurst(time.Time{}) {
+				break
+			}
+			ackedAll = true
+			answered := false
+			for {
+				if s.recvN.Load() >= int64(need) {
+					answered = true
+					break
+				}
+				if time.Since(s.lastAckT) > s.bound {
+					break
+				}
+				time.Sleep(500 * time.Microsecond)
+			}
+			if w := time.Since(s.lastAckT); w > s.maxAnswerWait {
+				s.maxAnswerWait = w
+			}
+			if !answered {
+				s.gaveUp = true
+				s.recvAtGiveUp = int(s.recvN.Load())
+				break
+			}
+			s.roundsDone++
+			prevLastWriteStart = lastWriteStart
+			burstStart = time.Now()
+			prev = burstStart
+		}
 	}
 	s.lastWriteT = time.Now()
 	s.lastWriteSeq = s.seq.Add(1)
+	if ackedAll && s.err == nil {
+		s.deliveredT = s.lastAckT
+		s.deliveredSeq = s.seq.Add(1)
+	}
 	if s.err == nil && (s.end == "eof" || s.end == "reset") {
 		if s.end == "reset" {
 			tc.SetLinger(0)
@@ -576,7 +676,7 @@ func (s *server) run() {
 		return
 	}
 	// wait until the client's kernel has acknowledged every byte of the opening
-	if s.err == nil && endBurst(time.Time{}) {
+	if s.err == nil && !ackedAll && endBurst(time.Time{}) {
 		s.deliveredT = s.lastAckT
 		s.deliveredSeq = s.seq.Add(1)
 	}
@@ -592,7 +692,7 @@ func (s *server) run() {
 		<-rd
 		return
 	}
-	if len(s.tail) > 0 {
+	if len(s.tail) > 0 && !s.gaveUp {
 		c.Write(s.tail)
 	}
 	tc.CloseWrite()
@@ -969,6 +1069,21 @@ func runOnce(d Desc) (res mon.Result, earlyPattern bool) {
 	t0 := time.Now()
 	srv := &server{ln: ln, wire: wire, segs: d.Segs, gaps: d.GapsUs, tail: tail, seq: &seq, t0: t0, window: T,
 		openDone: make(chan struct{}), done: make(chan struct{})}
+	if d.Family == "reactive" {
+		srv.roundNeed = map[int]int{}
+		srv.bound = T / 4
+		off := 0
+		re := map[int]bool{}
+		for _, i := range d.RoundEnds {
+			re[i] = true
+		}
+		for i, n := range d.Segs {
+			off += n
+			if re[i] {
+				srv.roundNeed[i] = len(refParse(wire[:off]).replies)
+			}
+		}
+	}
 	go srv.run()
 
 	openErr := tr.Open()
@@ -1021,6 +1136,18 @@ func runOnce(d Desc) (res mon.Result, earlyPattern bool) {
 	}
 	if srv.err != nil {
 		return inconclusive("harness: %v", srv.err)
+	}
+	// reactive server that gave up: judged on what was exchanged
+	var lateKey, lateDetail string
+	if srv.gaveUp {
+		wire = wire[:srv.sent]
+		ref = refParse(wire)
+		tail = nil
+		lateKey, lateDetail = judgeReplies(wire, ref, srv.recv[:srv.recvAtGiveUp])
+		if lateKey != "" {
+			lateDetail = fmt.Sprintf("reactive server: round %d of %d was acknowledged by the client's kernel, but %s later (TimeoutSocket/4, half the idle window) its requests were not all answered, so the server never sent its next round; by the end of the connection the server had received %s\n%s",
+				srv.roundsDone+1, len(d.RoundEnds), srv.bound, hx(srv.recv), lateDetail)
+		}
 	}
 	// precondition of the quantifier: the whole opening was on the wire before the client's
 	// negotiation window ended (event order, not durations)
@@ -1111,6 +1238,29 @@ func runOnce(d Desc) (res mon.Result, earlyPattern bool) {
 		}
 		nontrivial = late >= 1 && span > d.TimeoutMs*500
 	}
+	if d.Family == "reactive" {
+		tags = append(tags, "family=reactive", fmt.Sprintf("reactive-rounds=%d", len(d.RoundEnds)))
+		obs["reactive_openings"]++
+		obs["rounds_completed"] += int64(srv.roundsDone)
+		obs["reactive_answer_wait_us_sum"] = srv.maxAnswerWait.Microseconds()
+		// rounds (other than the last) that end with the option code of a request: nothing follows that could trigger the answers
+		bare := 0
+		off := 0
+		re := map[int]bool{}
+		for _, i := range d.RoundEnds {
+			re[i] = true
+		}
+		full := wireOf(d.Items)
+		st := refParse(full).state
+		for i, n := range d.Segs {
+			off += n
+			if re[i] && off < len(full) && off >= 1 && st[off-1] == 2 {
+				bare++
+			}
+		}
+		obs["reactive_rounds_ending_with_a_request"] += int64(bare)
+		nontrivial = srv.roundsDone >= 2 && bare >= 1
+	}
 	tags = dedupe(tags)
 
 	var keys, details []string
@@ -1122,6 +1272,24 @@ func runOnce(d Desc) (res mon.Result, earlyPattern bool) {
 	}
 	if changed != "" {
 		keys, details = append(keys, "c15/delivered-chunk-changed-after-return"), append(details, changed)
+	}
+	if lateKey != "" && len(keys) == 0 {
+		// a verdict that rests on real time: only with a quiet machine, and it must repeat (earlyPattern)
+		if mon.LoadedSince(t0) {
+			return inconclusive("reactive: answers later than the server's bound while the load canary overshot")
+		}
+		if psi1, ok := cpuPressure(); ok && psiOK {
+			if el := time.Since(t0); psi1-psi0 > el/2 {
+				return inconclusive("reactive: answers later than the server's bound while tasks were waiting for a CPU")
+			}
+		}
+		if srv.retrans != 0 || srv.deliveredSeq == 0 {
+			return inconclusive("reactive: answers later than the server's bound, retransmissions on the connection")
+		}
+		ev := []string{fmt.Sprintf("opening sent: %s (of %s)", hx(wire), hx(wireOf(d.Items))), fmt.Sprintf("segments %v round ends %v", d.Segs, d.RoundEnds),
+			fmt.Sprintf("received at give-up: %s; at the end: %s; expected: %s", hx(srv.recv[:srv.recvAtGiveUp]), hx(srv.recv), hx(ref.replies)),
+			fmt.Sprintf("rounds completed %d; longest wait for answers %s; Open took %s", srv.roundsDone, srv.maxAnswerWait, openT.Sub(t0))}
+		return mon.Result{Verdict: mon.Violated, Key: lateKey, Detail: lateDetail, Events: ev, NonTrivial: true, Obs: obs, Tags: tags}, true
 	}
 	if readErr != io.EOF && len(keys) == 0 {
 		keys = append(keys, "c15/read-error:"+errClass(readErr))
@@ -1207,6 +1375,8 @@ func init() {
 			"optional plain tail sent after Open. Non-trivial = opening with >=1 two-byte command or escaped IAC and >=2 TCP segments. " +
 			"Paced family (24 quick / 300 thorough): timeout 800/1200 ms, 4-8 bursts (a request in each), first at once, pauses 25-45 % of TimeoutSocket/2, span 0.6-1.5 x timeout; " +
 			"non-trivial = a request scheduled later than TimeoutSocket/2 after the dial. " +
+			"Reactive family (32 quick / 400 thorough): 2-4 rounds of 1-4 requests, with or without trailing text; the server sends round r+1 only after it has received every answer byte the rounds so far call for " +
+			"(bounded wait TimeoutSocket/4 from the kernel's acknowledgement of the round; on give-up the case is judged on what was exchanged); non-trivial = >=2 rounds completed and a non-final round ending with a request's option code. " +
 			"Re-open family (60 quick / 600 thorough): 2-3 consecutive openings on one transport object (3/4) or one driver object (1/4, re-Open after failed Opens only), earlier openings end in parser state clean / after IAC / after IAC verb / after IAC SB / mid-subnegotiation / subnegotiation+IAC, " +
 			"by idle-window expiry, server half-close (EOF) or reset, with and without reading what was buffered and with and without Close; every opening inside the quantifier is judged against a fresh reference; " +
 			"non-trivial = an earlier opening ended inside a sequence and a later opening was judged. Distinct = distinct descriptor hash.",
@@ -1215,6 +1385,7 @@ func init() {
 			"every byte of the opening reaches the client inside its negotiation window: judged only if the kernel reported the whole opening sent and acknowledged (TCP_INFO of the server socket: unacked=0, notsent=0) before Open returned (shared event counter, no durations); " +
 				"an outcome equal to a correct client's whose window ended early is a violation only if every burst was acknowledged within 60 % of the read window applying to it (timeout/4 from the dial for the first; timeout/2 from the previous burst's last write for later ones), without retransmission, canary and PSI quiet, reproduced 3 of 3 - otherwise inconclusive",
 			"linux, little-endian (struct tcp_info offsets 24/100/144)",
+			"reactive: requests of a round the client's kernel had received are expected to be answered within TimeoutSocket/4 (half the idle window the library itself grants); a missing answer at that point is a violation only with canary and PSI quiet, no retransmission, and reproduced 3 of 3 - otherwise inconclusive",
 			"re-open: a new connection is a new telnet stream (fresh reference; bytes of an earlier connection delivered by a later opening's reads are a violation); openings ending in a subnegotiation are outside the per-opening oracle and only serve as predecessors; via the driver the channel's CR removal is applied to the expectation and ESC is kept out of the text",
 			"an escaped IAC IAC may be delivered as one or two 0xff bytes (consistently within a case)",
 			"bytes after Open (the tail) carry no 0xff; the server half-closes after the tail so that the reads end with io.EOF instead of a quiet period",
@@ -1234,6 +1405,14 @@ func init() {
 			rp := rand.New(rand.NewSource(seed*15485863 + 151))
 			for i := 0; i < np; i++ {
 				cs = append(cs, mon.MkCase(fmt.Sprintf("c15/p%04d", i), GenPaced(rp)))
+			}
+			nx := 32
+			if tier == "thorough" {
+				nx = 400
+			}
+			rx := rand.New(rand.NewSource(seed*49979687 + 153))
+			for i := 0; i < nx; i++ {
+				cs = append(cs, mon.MkCase(fmt.Sprintf("c15/x%04d", i), GenReactive(rx)))
 			}
 			nr := 60
 			if tier == "thorough" {
